@@ -316,15 +316,15 @@ Notation k_normA := (k_norm A div sqrtA vec).
 Notation g_normA := (g_norm A one add mul div opp sqrtA).
 Notation p_normA := (p_norm A one add mul div opp sqrtA).
 Definition K_norm (K : vec -> kD) : vec -> kD := fun dth => k_norm D ddiv dsqrt (list D) (K dth).
-(* Pt' : the points where sqrtA really is a non-zero square root of the diagonal value k(x,x); sqrt(kxx*kzz), as the
-   derivative code computes it, must agree with sqrt(kxx)*sqrt(kzz), as the evaluation code computes it *)
-Theorem DOK_norm (Dir Pt Pt' : vec -> Prop) n m K k g p :
+(* Pt' : the points where sqrtA really is a non-zero square root of the diagonal value k(x,x).  The derivative code divides the
+   coefficients by sqrt(kxx)*sqrt(kzz), as the evaluation code does (/repo commit 65eec74d; before, by sqrt(kxx*kzz), which needed
+   the extra premise that sqrtA is multiplicative on the diagonal values - DOK_norm keeps that premise in its statement, unused) *)
+Theorem DOK_norm_strong (Dir Pt Pt' : vec -> Prop) n m K k g p :
   DOK Dir Pt n m K k g p -> (forall x z, k x z = k z x) -> twoA <> 0 ->
   (forall x, Pt' x -> Pt x /\ sqrtA (k x x) * sqrtA (k x x) = k x x /\ sqrtA (k x x) <> 0) ->
-  (forall x z, Pt' x -> Pt' z -> sqrtA (k x x * k z z) = sqrtA (k x x) * sqrtA (k z z)) ->
   DOK Dir Pt' n m (K_norm K) (k_normA k) (g_normA k g) (p_normA k p).
 Proof.
-  intros H Sy T HP HM dth x dx z dz Lth Lx Ldx Lz Ldz Dx Dz Px Pz.
+  intros H Sy T HP dth x dx z dz Lth Lx Ldx Lz Ldz Dx Dz Px Pz.
   destruct (HP x Px) as (Qx & Sx & Nx). destruct (HP z Pz) as (Qz & Sz & Nz).
   destruct (H dth x dx z dz) as (A1 & A2 & A3 & A4); auto.
   destruct (H dth x dx x dx) as (B1 & B2 & B3 & B4); auto.
@@ -335,13 +335,19 @@ Proof.
   split; [|split].
   - unfold C05Model.g_norm, C05Model.p_norm.
     rewrite !dot_vaddA by (rewrite ?vadd_lengthA; rewrite !vscale_lengthA; congruence).
-    rewrite !dot_vscaleA. rewrite (HM x z), (HM z x) by auto. rewrite (Sy z x).
+    rewrite !dot_vscaleA. rewrite (Sy z x).
     unfold C05Model.two in *.
     set (sx := sqrtA (k x x)) in *. set (sz := sqrtA (k z z)) in *. rewrite <- Sx, <- Sz.
     field. repeat split; auto.
   - unfold C05Model.g_norm. rewrite vadd_lengthA; rewrite !vscale_lengthA; congruence.
   - unfold C05Model.p_norm. rewrite !vadd_lengthA; rewrite ?vadd_lengthA; rewrite !vscale_lengthA; congruence.
 Qed.
+Theorem DOK_norm (Dir Pt Pt' : vec -> Prop) n m K k g p :
+  DOK Dir Pt n m K k g p -> (forall x z, k x z = k z x) -> twoA <> 0 ->
+  (forall x, Pt' x -> Pt x /\ sqrtA (k x x) * sqrtA (k x x) = k x x /\ sqrtA (k x x) <> 0) ->
+  (forall x z, Pt' x -> Pt' z -> sqrtA (k x x * k z z) = sqrtA (k x x) * sqrtA (k z z)) ->
+  DOK Dir Pt' n m (K_norm K) (k_normA k) (g_normA k g) (p_normA k p).
+Proof. intros H Sy T HP _. exact (DOK_norm_strong Dir Pt Pt' n m K k g p H Sy T HP). Qed.
 
 (* ------------------------------------------------------------------ closure: SubrangeKernelWrapper *)
 Lemma dot_g_sub n a b (v w : vec) : (a <= b)%nat -> (b <= n)%nat -> length v = (b - a)%nat -> length w = n ->
